@@ -11,6 +11,8 @@ from __future__ import annotations
 import copy
 import json
 import os
+import subprocess
+import re
 import random
 import shutil
 import typing as T
@@ -44,7 +46,7 @@ class Check:
     shrink_runs = 200
     rule = ('scenario = generated project (top + subproject) with install_data (rename, install_mode, install_tag, relative/absolute/default '
             'install_dir), install_headers(subdir), install_man, install_subdir (nested tree, exclude_files/exclude_directories, '
-            'strip_directory), install_emptydir, install_symlink; names with spaces and non-ASCII; prefix, install_umask incl. preserve; '
+            'strip_directory), install_emptydir, install_symlink, installed custom_target outputs and compiled build targets; names with spaces and non-ASCII; prefix, install_umask incl. preserve; '
             '+ a history of install / reinstall / --only-changed / --dry-run / --tags / --skip-subprojects / uninstall steps with '
             'simulator-chosen ambient umask, mtime skew (source older/equal/newer than the installed copy), pre-populated DESTDIR and '
             'DESTDIR given through the environment or --destdir (absolute or relative), and an obstacle fault (a directory of the user where a '
@@ -58,7 +60,7 @@ class Check:
     assumptions = [
         'runs as root in the sandbox: containment is observed at the audit seam, not enforced by permissions; owner/group install_mode fields are not generated',
         'every rule carries an explicit install_tag when --tags is exercised (automatic tagging by directory is not modelled); headers are devel, man pages are man',
-        'no installed build targets in the generated projects (none backend); strip/rpath fixing is not exercised',
+        'compiled build targets (executable / shared library with version+soversion aliases / static library; install_dir, install_mode, install_tag, install_rpath) are in about one scenario in eight: built for real through the C05 reference executor, judged as the built file up to the rewritten run path (size, <=96 differing bytes, RUNPATH via readelf); --strip and both_libraries are not generated',
     ]
 
     def prepare(self, tier: str) -> None:
@@ -136,6 +138,25 @@ class Check:
                 rule['dir'] = rng.choice(['bin2', f'share/l{i}', '/usr/links'])
                 rule['tag'] = rng.choice(tagset)
             spec['rules'].append(rule)
+        # compiled build targets with install: true (a fraction of the scenarios: they need the C compiler and a build)
+        if rng.random() < (0.12 if tier == 'quick' else 0.2):
+            libs: T.List[T.Dict[str, T.Any]] = []
+            base_i = len(spec['rules'])
+            for j in range(rng.randint(1, 4)):
+                tt = rng.choice(['exe', 'shlib', 'shlib', 'stlib'])
+                rule = {'kind': 'target', 'sub': False, 'id': base_i + j, 'ttype': tt, 'name': f'tg{j}' + (rng.choice(['', ' tool']) if tt == 'exe' else ''),
+                        'dir': rng.choice([None, None, None, f'libexec/t{j}', f'/opt/tg {j}']),
+                        'mode': rng.choice([None, None, None, 'rwxr-x---', 'rwx------', 'rw-r--r--']),
+                        'tag': rng.choice([None, None, None, 't1', 't2'])}
+                if tt == 'shlib':
+                    rule['version'] = rng.choice([None, '1.2.3', '4.5.6', '2'])
+                    rule['soversion'] = rng.choice([None, None, '1', '7'])
+                if tt == 'exe':
+                    rule['links'] = [l['name'] for l in libs if rng.random() < 0.6]
+                    rule['rpath'] = rng.choice([None, None, '/opt/my lib', '$ORIGIN/../lib'])
+                else:
+                    libs.append(rule)
+                spec['rules'].append(rule)
         # some symlinks point at a directory (or a file) that the same project installs
         for rule in spec['rules']:
             if rule['kind'] != 'symlink' or rng.random() >= 0.5:
@@ -202,12 +223,19 @@ class Check:
                 steps.append({'op': 'uninstall'})
             if st['op'] == 'skew' and rng.random() < 0.7:
                 steps.append({'op': 'install', 'only_changed': True})
+        if any(r_['kind'] == 'target' for r_ in spec['rules']) and rng.random() < 0.6:
+            # the predefined tags of build targets (runtime / devel, alias links) only show under --tags
+            st = {'op': 'install', 'tags': rng.choice(['runtime', 'devel', 'runtime,t1', 'devel,man']), 'quiet': False}
+            steps.insert(0 if rng.random() < 0.5 else len(steps), st)
         return {'kind': 'c11', 'spec': spec, 'have_sub': have_sub, 'steps': steps, 'ambient_umask': ambient, 'destmode': destmode, 'prepopulate': prepop}
 
     # ------------------------------------------------------------------ project on disk
     def write_project(self, spec: T.Dict[str, T.Any], have_sub: bool, sd: str) -> None:
         os.makedirs(sd)
-        top = [f"project({q(IR.PROJ)}, default_options: ['prefix={spec['prefix']}', 'install_umask={spec['umask']}'], meson_version: '>=1.1.0')\n"]
+        compiled = any(r_['kind'] == 'target' for r_ in spec['rules'])
+        lang = ", 'c'" if compiled else ''
+        libdir = ", 'libdir=lib', 'bindir=bin'" if compiled else ''
+        top = [f"project({q(IR.PROJ)}{lang}, default_options: ['prefix={spec['prefix']}', 'install_umask={spec['umask']}'{libdir}], meson_version: '>=1.1.0')\n"]
         sub = [f"project({q(IR.SUB)})\n"]
         subroot = os.path.join(sd, 'subprojects', IR.SUB)
         if have_sub:
@@ -270,6 +298,32 @@ class Check:
                 if rule.get('mode'):
                     kw.append(f"install_mode: {q(rule['mode'])}")
                 out.append(f"install_subdir({q(rule['name'])}{''.join(', ' + x for x in kw)})\n")
+            elif k == 'target':
+                n = rule['name']
+                var = 'tg_' + re.sub(r'[^a-z0-9]', '_', n)
+                cname = var + '.c'
+                kw.append('install: true')
+                if rule.get('dir') is not None:
+                    kw.append(f"install_dir: {q(rule['dir'])}")
+                if rule.get('mode'):
+                    kw.append(f"install_mode: {q(rule['mode'])}")
+                if rule['ttype'] == 'exe':
+                    decl = ''.join(f'int tg_{l}_f(void);\n' for l in rule.get('links', []))
+                    call = ' + '.join([f'tg_{l}_f()' for l in rule.get('links', [])] or ['0'])
+                    mkfile(root, cname, (decl + f'int main(void) {{ return ({call}) > 100; }}\n').encode(), False)
+                    if rule.get('links'):
+                        kw.append('link_with: [' + ', '.join('tg_' + l for l in rule['links']) + ']')
+                    if rule.get('rpath'):
+                        kw.append(f"install_rpath: {q(rule['rpath'])}")
+                    out.append(f"{var} = executable({q(n)}, {q(cname)}{''.join(', ' + x for x in kw)})\n")
+                else:
+                    mkfile(root, cname, f'int tg_{n}_f(void) {{ return {rule["id"]}; }}\n'.encode(), False)
+                    if rule.get('version'):
+                        kw.append(f"version: {q(rule['version'])}")
+                    if rule.get('soversion'):
+                        kw.append(f"soversion: {q(rule['soversion'])}")
+                    fn = 'shared_library' if rule['ttype'] == 'shlib' else 'static_library'
+                    out.append(f"{var} = {fn}({q(n)}, {q(cname)}{''.join(', ' + x for x in kw)})\n")
             elif k == 'ctarget':
                 kw.append(f"install_dir: {q(rule['dir'])}")
                 if rule.get('mode'):
@@ -318,7 +372,8 @@ class Check:
         bd = os.path.join(root, 'bd')
         self.write_project(spec, sc.get('have_sub', False), sd)
         ctargets = [r_ for r_ in spec['rules'] if r_['kind'] == 'ctarget']
-        if ctargets:
+        targets = [r_ for r_ in spec['rules'] if r_['kind'] == 'target']
+        if ctargets or targets:
             # installed build outputs need a backend that has targets: ninja (stub binary for detection only);
             # the outputs are put into the build directory by hand, nothing is built
             from .c05 import STUB_NINJA_DIR
@@ -335,6 +390,22 @@ class Check:
             with open(pth, 'wb') as f:
                 f.write(IR.content_of('ctarget:' + r_['name']))
             os.chmod(pth, 0o755 if r_.get('exec') else 0o644)
+        self.target_files: T.Dict[str, T.Tuple[str, T.Optional[str]]] = {}     # file name -> (path in the build dir, expected RUNPATH)
+        if targets:
+            # the compiled targets are built for real, by the reference executor of C05 (ninja itself is a stub)
+            import random as _random
+            from sim.ninja import executor as X
+            from sim.ninja.manifest import Manifest
+            from .c05 import build_env
+            with open(os.path.join(bd, 'build.ninja'), encoding='utf-8') as f:
+                mf = Manifest.parse(f.read())
+            outs = [IR.target_files(r_)[0] for r_ in targets]
+            res = X.Executor(mf, bd, build_env()).schedule(mf.wanted_edges(outs), 'declaration', _random.Random(0))
+            if not res.ok:
+                return R.harness_error('building the compiled targets of a generated project failed: ' + res.detail[-2000:])
+            for r_ in targets:
+                fn = IR.target_files(r_)[0]
+                self.target_files[fn] = (os.path.join(bd, fn), r_.get('rpath') if r_['ttype'] == 'exe' else None)
         ambient = sc.get('ambient_umask', 0o022)
         destmode = sc.get('destmode', 'arg-abs')
         if destmode.endswith('rel'):
@@ -354,7 +425,7 @@ class Check:
                 f.write('mine\n')
             with open(os.path.join(userdirs[1], 'users own file'), 'w') as f:
                 f.write('keep me\n')
-            pre = IR.snapshot(destdir)
+            pre = self.snap(destdir)
         outside_before = IR.snapshot(sd)
         faults: T.Dict[str, int] = {}
         probes: T.Dict[str, int] = {}
@@ -382,7 +453,7 @@ class Check:
                 now = _t.time()
                 for p in srcs:
                     os.utime(p, (now + st['delta'], now + st['delta']))
-                for p, it in IR.snapshot(destdir).items():
+                for p, it in self.snap(destdir).items():
                     if it[0] == 'file':
                         os.utime(p, (now, now))
                 kinds.append(f"skew{st['delta']}")
@@ -390,13 +461,13 @@ class Check:
                 continue
             if st['op'] == 'userfile':
                 # the user drops a file of their own into a directory the install created
-                dirs = sorted(p for p, it in IR.snapshot(destdir).items() if it[0] == 'dir' and p not in pre)
+                dirs = sorted(p for p, it in self.snap(destdir).items() if it[0] == 'dir' and p not in pre)
                 if dirs:
                     d = dirs[st['pick'] % len(dirs)]
                     up = os.path.join(d, 'users later file')
                     with open(up, 'w') as f:
                         f.write('mine too\n')
-                    snap = IR.snapshot(destdir)
+                    snap = self.snap(destdir)
                     pre[up] = snap[up]
                     q_ = d
                     while q_ != destdir and q_ not in pre:
@@ -406,7 +477,7 @@ class Check:
                     nontrivial = True
                 kinds.append('userfile')
                 continue
-            before = IR.snapshot(destdir)
+            before = self.snap(destdir)
             before_mtimes = {p: os.lstat(p).st_mtime_ns for p, it in before.items() if it[0] == 'file'}
             env = M.clean_env()
             if st['op'] == 'uninstall':
@@ -445,7 +516,7 @@ class Check:
                     os.makedirs(blocker)
                     for q_ in blocker_made:
                         os.chmod(q_, 0o755)
-                    snap = IR.snapshot(destdir)
+                    snap = self.snap(destdir)
                     for q_ in blocker_made:
                         pre[q_] = snap[q_]
                     before = snap
@@ -486,7 +557,7 @@ class Check:
                         return R.violation('dry-run-wrote', f'step {si}: --dry-run performed {ev["op"]} on {p}', f'dry-run-wrote:{ev["op"]}', **base)
             if IR.snapshot(sd) != outside_before:
                 return R.violation('escaped-destdir', f'step {si}: the source tree was modified by `meson {" ".join(argv[:2])}`', 'escaped-destdir:source-tree', **base)
-            after = IR.snapshot(destdir)
+            after = self.snap(destdir)
             if blocker is not None and v['rc'] != 0:
                 # the install stopped at the blocked destination: whatever it did create is on record, nothing of the user's changed
                 nontrivial = True
@@ -633,6 +704,42 @@ class Check:
                     interleavings=[prng.short(kinds)], summary={'ops': kinds, 'rules': [r['kind'] for r in spec['rules']]},
                     steps=len(sc['steps']), trace_digest=prng.digest(json.loads(json.dumps([kinds, trace], default=str).replace(root, '<ROOT>'))))
 
+    def snap(self, destdir: str) -> T.Dict[str, T.Tuple[T.Any, ...]]:
+        """Listing of DESTDIR; an installed compiled target is represented by 'TARGET:<name>' when it is the built file
+        (same size, same bytes up to the rewritten run path, RUNPATH as the rules say), else by what is wrong with it."""
+        out = IR.snapshot(destdir)
+        for p, it in list(out.items()):
+            tf = self.target_files.get(os.path.basename(p)) if it[0] == 'file' else None
+            if tf is not None:
+                out[p] = ('file', it[1], self.judge_target(p, tf[0], tf[1]))
+        return out
+
+    @staticmethod
+    def judge_target(installed: str, built: str, rpath: T.Optional[str]) -> str:
+        name = os.path.basename(built)
+        try:
+            with open(installed, 'rb') as f:
+                a = f.read()
+            with open(built, 'rb') as f:
+                b = f.read()
+        except OSError as e:
+            return f'TARGET-BAD:{name}:unreadable {e}'
+        if len(a) != len(b):
+            return f'TARGET-BAD:{name}:size {len(a)} != {len(b)} of the built file'
+        if name.endswith('.a'):
+            return 'TARGET:' + name if a == b else f'TARGET-BAD:{name}:archive differs from the built one'
+        if a[:4] != b'\x7fELF':
+            return f'TARGET-BAD:{name}:not an ELF file'
+        ndiff = sum(1 for x, y in zip(a, b) if x != y)
+        if ndiff > 96:
+            return f'TARGET-BAD:{name}:{ndiff} bytes differ from the built file'
+        r = subprocess.run(['readelf', '-d', installed], capture_output=True, text=True)
+        got = re.findall(r'\((?:RUNPATH|RPATH)\)\s+Library r(?:un)?path: \[(.*)\]', r.stdout)
+        want = [rpath] if rpath else []
+        if got != want:
+            return f'TARGET-BAD:{name}:run path {got} instead of {want}'
+        return 'TARGET:' + name
+
     @staticmethod
     def ancestors(p: str, stop: str) -> T.List[str]:
         out = []
@@ -661,6 +768,8 @@ class Check:
             if dst in t.items and t.items[dst][0] == 'file':
                 if r['kind'] == 'ctarget':
                     return os.path.join(os.path.dirname(sd), 'bd', r['name'])
+                if r['kind'] == 'target':
+                    return os.path.join(os.path.dirname(sd), 'bd', IR.target_files(r)[0])
                 if r['kind'] == 'subdir':
                     base = os.path.join(IR.dest_join(destdir, r['dir']) if r['dir'].startswith('/') else
                                         os.path.join(IR.dest_join(destdir, spec['prefix']), r['dir']), '' if r.get('strip') else r['name'])
